@@ -1,7 +1,7 @@
 (* C07 -- standard Monte-Carlo price, error and control-variate adjustment are textbook.
    Only statements; proofs in Proofs/C07_McStats.v, model in Model/McStats.v.
    The model follows the repaired tree (fix-mc: dee7ba4 mc_stddev divides by sqrt(shape[0]);
-   f813372 every control is centred on its own price). *)
+   f813372 every control is centred on its own price; fix-mc3 aaa3e1f scale-relative degenerate-control guard). *)
 From Coq Require Import List ZArith QArith Qabs Bool.
 From RV Require Import Base.QB Model.McStats Proofs.C07_StatsLemmas Proofs.C07_McStats.
 Import ListNotations.
@@ -17,11 +17,14 @@ Theorem C07_price_is_df_mean :
        == df * notional * mean (map (fun i => nth j (payoff (path i)) 0) (seq 0 n)).
 Proof. exact price_is_df_mean_full. Qed.
 
-(* Engine.price called repeatedly on ONE engine (other path count, other product): every pricing holds exactly its
-   own p_n paths, each once -- nothing of the previous pricing survives *)
+(* Engine.price called repeatedly on ONE engine (other path count, other product).  The engine's statistics are STATE:
+   initialisation replaces them by np.empty arrays, an oracle that may hand back anything -- e.g. the rows of the
+   previous pricing.  For every such allocator with the right number of rows, every pricing holds exactly its own
+   p_n paths, each once. *)
 Theorem C07_repricing_uses_own_paths :
-  forall ps prev, Forall (fun p => length (p_init p) = p_n p) ps ->
-    price_seq prev ps = map (fun p => map (std_row (p_payoff p) (p_path p) (p_df p) (p_notional p)) (seq 0 (p_n p))) ps.
+  forall np_empty : list (list Q) -> nat -> list (list Q), (forall prev n, length (np_empty prev n) = n) ->
+  forall ps prev,
+    price_seq np_empty prev ps = map (fun p => map (std_row (p_payoff p) (p_path p) (p_df p) (p_notional p)) (seq 0 (p_n p))) ps.
 Proof. exact price_seq_own_paths. Qed.
 
 (* mc_stddev()^2, component j = unbiased sample variance of column j divided by the number of paths n
@@ -53,11 +56,18 @@ Theorem C07_cv_fallback_is_raw : forall nc p X Y i, cv_adj (repeat 0 nc) p X Y i
 Proof. exact cv_adj_zero. Qed.
 Theorem C07_cv_bstar_solves_normal_equations :
   forall n X Y, (0 < n)%nat ->
-    (Qltb (Qabs (Cn n (X 0%nat) (X 0%nat))) cv_eps = false -> normal_eq n (b_star n 1 X Y) X Y)
+    (degenerate n (X 0%nat) = false -> normal_eq n (b_star1 n X Y) X Y)
     /\ (let a := Cn n (X 0%nat) (X 0%nat) in let c := Cn n (X 0%nat) (X 1%nat) in let d := Cn n (X 1%nat) (X 1%nat) in
-        Qltb (Qminb (Qabs a) (Qminb (Qabs c) (Qabs d))) cv_eps = false -> ~ a * d - c * c == 0 ->
-        normal_eq n (b_star n 2 X Y) X Y).
+        (degenerate n (X 0%nat) || degenerate n (X 1%nat))%bool = false -> ~ a * d - c * c == 0 ->
+        normal_eq n (b_star2 n X Y) X Y).
 Proof. exact b_star_normal. Qed.
+(* composed: with the b the code computes for one / two controls (guard included) var(adj) <= var Y *)
+Theorem C07_cv_variance_with_code_b :
+  forall n p X Y, (0 < n)%nat ->
+    Cn n (cv_adj (b_star1 n X Y) p X Y) (cv_adj (b_star1 n X Y) p X Y) <= Cn n Y Y
+    /\ (~ Cn n (X 0%nat) (X 0%nat) * Cn n (X 1%nat) (X 1%nat) - Cn n (X 0%nat) (X 1%nat) * Cn n (X 0%nat) (X 1%nat) == 0 ->
+        Cn n (cv_adj (b_star2 n X Y) p X Y) (cv_adj (b_star2 n X Y) p X Y) <= Cn n Y Y).
+Proof. exact cv_variance_with_code_b. Qed.
 
 (* non-vacuity / behaviour before the repair of mc_stddev (F-C07-1): two paths, two components *)
 Example C07_error_vector_before_repair :
@@ -72,3 +82,4 @@ Print Assumptions C07_cv_mean.
 Print Assumptions C07_cv_variance.
 Print Assumptions C07_cv_fallback_is_raw.
 Print Assumptions C07_cv_bstar_solves_normal_equations.
+Print Assumptions C07_cv_variance_with_code_b.
